@@ -59,7 +59,7 @@ func TestC09Rapid(t *testing.T) {
 			return m
 		}
 		repeatSteps(rt, 40, func(i int) {
-			op := drawWeighted(rt, "op", []weighted{{"deposit", 6}, {"withdraw", 7}, {"transfer", 2}, {"reannounce", 2}, {"discarded", 2}})
+			op := drawWeighted(rt, "op", []weighted{{"deposit", 6}, {"withdraw", 7}, {"transfer", 2}, {"reannounce", 2}, {"discarded", 2}, {"stale-announce", 2}})
 			switch op {
 			case "deposit", "reannounce":
 				var msg *opchildtypes.MsgFinalizeTokenDeposit
@@ -187,6 +187,27 @@ func TestC09Rapid(t *testing.T) {
 				_ = supplyBefore
 				tc.logf("%s(%s to=%s base=%s) -> refunds=%d", op, msg.Amount, short(msg.To), msg.BaseDenom, len(ws))
 				shape += op[:1]
+			case "stale-announce":
+				// the executor re-delivers an already processed sequence number, this time naming a denom that has no
+				// mapping yet (or a native token) and some base denom: answered as a no-op, which registers nothing
+				if nextL1 <= 1 {
+					return
+				}
+				cands := []string{"umin", "stake"}
+				for _, d := range []string{tcL2Denom(tc, "uinit"), tcL2Denom(tc, "uusdc")} {
+					if _, ok := baseOf[d]; !ok {
+						cands = append(cands, d)
+					}
+				}
+				d := rapid.SampledFrom(cands).Draw(rt, "sdenom")
+				seq := uint64(rapid.IntRange(1, int(nextL1-1)).Draw(rt, "sseq"))
+				digest := l2.Digest()
+				r := l2.Deliver(opchildtypes.NewMsgFinalizeTokenDeposit(exec, tc.users[0].Str, tc.users[1].Str, coinOf(d, 7), seq, 5, "ustale", nil))
+				tc.logf("stale delivery of sequence %d naming %s base=ustale -> %v", seq, d, r.Err)
+				if r.OK() && digest != l2.Digest() {
+					rt.Fatalf("C09 violated at step %d: the no-op answer to an already processed sequence changed state\nhistory:\n%s", i, strings.Join(tc.log, "\n"))
+				}
+				c.Class("stale-delivery-naming-an-unmapped-denom")
 			case "discarded":
 				// executor and user transactions that run on a branch which is never written (simulation,
 				// CheckTx, a transaction that fails later): a deposit announcing a base denom for a denom
